@@ -361,7 +361,7 @@ func Run(c *vh.Ctx) {
 			c.Res.ModelUsed = true
 		}
 	}
-	rn := &runner{c: c, timeout: 10 * time.Second}
+	rn := &runner{c: c, timeout: 6 * time.Second}
 	if f := os.Getenv("C16_EXPLORE"); f != "" {
 		rn.explore, _ = os.Create(f)
 		defer rn.explore.Close()
@@ -418,10 +418,10 @@ func Run(c *vh.Ctx) {
 				progs = append(progs, FeatProg(c.Rand, f, name("f"), "feat"))
 			}
 		}
-		for i := 0; i < c.N(60, 330); i++ {
+		for i := 0; i < c.N(90, 330); i++ {
 			progs = append(progs, SafeProg(c.Rand, name("s")))
 		}
-		for i := 0; i < c.N(60, 330); i++ {
+		for i := 0; i < c.N(100, 330); i++ {
 			progs = append(progs, MixProg(c.Rand, entryPool, name("m")))
 		}
 		if b == 0 {
@@ -437,7 +437,7 @@ func Run(c *vh.Ctx) {
 		}
 		both := append(append([]*feature{}, clsPool...), clsPool...)
 		both = append(both, entryPool...)
-		for i := 0; i < c.N(40, 200); i++ {
+		for i := 0; i < c.N(60, 200); i++ {
 			progs = append(progs, MixProg(c.Rand, both, name("k")))
 		}
 		rn.batch(progs, false)
